@@ -14,16 +14,23 @@
 extern size_t g_malloc_calls, g_realloc_calls, g_free_calls;
 extern size_t g_last_req;  /* size of the most recent malloc/realloc request */
 extern bool g_refused;     /* some request was refused */
+extern size_t g_live;      /* net number of live blocks obtained through the model (exact accounting: leaks) */
 extern bool g_alloc_forbidden; /* set by "allocates nothing" proofs: any allocator call fails an obligation */
 
+size_t nondet_size_for_live(void);
 void *v_malloc(size_t n);
 void *v_realloc(void *p, size_t n);
 void v_free(void *p);
 
 /* called first thing in every harness body (DFCC havocs non-const statics) */
+/* the ghost variables every allocating contract lists in its frame */
+#define ALLOC_GHOSTS g_malloc_calls, g_realloc_calls, g_free_calls, g_last_req, g_refused, g_live
+
 #define VERIF_ALLOC_RESET()                                          \
   do {                                                               \
     g_malloc_calls = 0; g_realloc_calls = 0; g_free_calls = 0;       \
     g_last_req = 0; g_refused = false; g_alloc_forbidden = false;    \
+    g_live = nondet_size_for_live();                                 \
+    __CPROVER_assume(g_live <= ((size_t)1 << 40));                   \
   } while (0)
 #endif
